@@ -21,6 +21,7 @@ type Config struct {
 	Pkg        string // e.g. ./rockredis
 	HarnessDir string // /verif/harness/rockredis
 	BuildDir   string // /verif/build
+	Extra      map[string]string // further package dir (./cluster) -> harness dir injected there (helpers, exports)
 }
 
 type Loaded struct {
@@ -81,6 +82,15 @@ func Load(cfg Config) (*Loaded, error) {
 	ov, err := OverlayFor(cfg.Repo, cfg.Pkg, cfg.HarnessDir)
 	if err != nil {
 		return nil, err
+	}
+	for pkg, dir := range cfg.Extra {
+		ov2, err := OverlayFor(cfg.Repo, pkg, dir)
+		if err != nil {
+			return nil, err
+		}
+		for k, v := range ov2 {
+			ov[k] = v
+		}
 	}
 	overlay := map[string][]byte{}
 	var files []string
